@@ -248,7 +248,7 @@ fn histories(tier: &str, seed: u64, allow_ext: bool) -> Vec<Vec<HOp>> {
     };
     let mut out: Vec<Vec<HOp>> = Vec::new();
     // exhaustive short histories
-    let maxlen = if tier == "thorough" { 4 } else { 2 };
+    let maxlen = if tier == "thorough" { 6 } else { 4 };
     fn rec(cur: &mut Vec<HOp>, left: usize, base: &[HOp], out: &mut Vec<Vec<HOp>>) {
         if !cur.is_empty() {
             out.push(cur.clone());
